@@ -106,6 +106,12 @@ RULE = ("hand-built networks: per case 1-4 stations, 1-12 sessions over a short 
         "the whole trace) or hands out 40 A (kind rate; EVSE.set_pilot raises InvalidRateError in both run() calls); the error "
         "of each run(), the state the raise left behind (network snapshot, counters, iteration, energies, EVSE pilots) and "
         "everything after it are compared with the phase model of the driver (SimSt.body continued from the abort state). "
+        "STATIONS REGISTERED LATE (max(60, n/15) raw-call cases, flag `late`): a WELL-FORMED plugin / unplug protocol over 2-8 EVs on a "
+        "network that is used while 0-2 of its stations are registered; register_evse calls for 1-3 fresh ids are interleaved "
+        "(mostly while nobody waits; ~1 in 5 while somebody waits - the code admits nobody on registration, the oracle then "
+        "abstains on wait-while-free / FIFO); available_evses() is queried after every call; oracle kinds waiting_while_free, "
+        "choice_not_among_all_free, available_evses_stale, not_fifo, arrival_not_enqueued_last, registration_moved_an_ev; the model "
+        "extends its station list on a register op and is compared after every call. "
         "non-trivial = some session had to wait (more simultaneous sessions than stations); distinct by case hash")
 
 START = datetime(2020, 1, 1)
